@@ -35,6 +35,11 @@ CLAIMS = {
    text="For each cell the API-bound operands a, s, b of one kind are interpreted through a..b, a..=b, a..s..b, a..s..=b; the result must be exactly the progression (count, every term, kind), unbuildable ranges must be an error or empty, and x[a..=b] must select what the range value lists.",
    note="Trusts the harness' exact rational arithmetic; inexact decimal float steps are judged within 1 ulp and without a count; orientation of the result vector is not judged.",
    ref="6/C15"),
+ "C02": dict(
+   technique="runtime monitoring: independent 5-level left-associative reference parser; each formula is compared with its fully parenthesised rendering and with a node-by-node evaluation of the reference tree (one interpreter call per binary node)",
+   text="All operator sequences up to length 3, sampled/exhaustive length 4 and type-directed chains up to length 8 (with unary -, !, transpose and **) are interpreted unparenthesised, fully parenthesised by the reference grouping, and stepwise; the three results must be the same canonical value. Random explicit parenthesisations are checked against their own tree.",
+   note="Trusts the harness' reading of the specification's precedence table; operand values are chosen so that a different grouping changes the value (non-commutative, negative, zero, fractional).",
+   ref="6/C02"),
 }
 NOT_YET = "not claimed yet: the monitor for this property is still being built in this session (see DESIGN.md section 6 for the planned check)"
 
